@@ -16,7 +16,7 @@ COQ_AGREE = 'agree'
 REPLAY_KIND = 'input'
 EXHAUSTIVE = {'quick': False, 'thorough': False}
 RULE = ('exhaustive enumeration of table sizes N<=3 (quick) / N<=4 (thorough), every bound in [-N-2,N+2] u {None}, '
-        'chains of one and two slices, followed by list(), every index in [-N-2,N+2] or limit(n); plus seeded random '
+        'chains of one and two slices, followed by list(), every index in [-N-2,N+2] or limit(n); the constructor form select(limit=k) for every k in [0,N+2] followed by nothing / one slice / an index / limit(n); plus seeded random '
         'chains of up to three slices on tables up to 7 rows; orderBy n / -n / reversed() cycled. '
         'Non-trivial = the chain result differs from the full list or raises; distinct = distinct (N, order, chain, final op).')
 EXPLANATION = ('Theorems C10_chain/C10_index/C10_limit (Coq, unbounded lists/chains/bounds) over the window arithmetic '
@@ -25,8 +25,8 @@ EXPLANATION = ('Theorems C10_chain/C10_index/C10_limit (Coq, unbounded lists/cha
                'the rows returned, and Python list slicing itself.')
 TRUSTED_BASE = [
     'Coq 8.16.1 kernel + vm_compute (examples, correspondence); no native_compute',
-    'tools/py2coq (transliteration of __getitem__/limit/_queryAddLimitOffset/Select window test) and coq/Lib/PyLite.v (semantics of the Python fragment)',
-    'assumed: slice.step is None; bounds are ints or None (not other objects)',
+    'tools/py2coq (transliteration of __getitem__/limit/the limit= block of __init__/_queryAddLimitOffset/Select window test) and coq/Lib/PyLite.v (semantics of the Python fragment)',
+    'assumed: slice.step is None; bounds are ints or None (not other objects); the constructor argument limit= is None or an int >= 0 (a negative one is handed to the database as it is: outside)',
     'Model/Slice.v run_clause: meaning of LIMIT/OFFSET in sqlite (validated by execution), mysql and postgres (transcribed from manuals, never executed); MySQL refusing constants above 2^64-1 is not modelled',
     'Model/Slice.v pyslice/pyindex: Python list slicing (validated against CPython on every case)',
     'the correspondence harness tools/props/c10.py and the cases.v evaluation',
@@ -84,7 +84,28 @@ def random_case(rng, maxN=7, maxlen=3):
     else:
         fin = ['limit', rng.randint(0, N + 2)]
     o = rng.choice(ORDERS)
-    return {'N': N, 'order': o[0], 'rev': o[1], 'chain': chain, 'fin': fin}
+    c = {'N': N, 'order': o[0], 'rev': o[1], 'chain': chain, 'fin': fin}
+    if rng.random() < 0.25:
+        c['init'] = rng.randint(0, N + 2)           # Cls.select(limit=k)
+    return c
+
+
+def ctor_cases(N):
+    """Cls.select(limit=k) for every k in [0, N+2], followed by nothing, one slice, an index or limit(n)"""
+    B = bounds(N)
+    k = 0
+    for init in range(0, N + 3):
+        for fin in [['list']] + [['index', i] for i in range(-N - 2, N + 3)] + [['limit', n] for n in range(0, N + 3)]:
+            k += 1
+            o = ORDERS[k % len(ORDERS)]
+            yield {'N': N, 'order': o[0], 'rev': o[1], 'chain': [], 'fin': fin, 'init': init}
+        for a, b in itertools.product(B, B):
+            k += 1
+            o = ORDERS[k % len(ORDERS)]
+            fin = ['list'] if k % 3 else ['index', (k // 3) % (2 * N + 5) - N - 2]
+            if k % 7 == 0 and (a is None or a >= 0) and (b is None or b >= 0):
+                fin = ['limit', (k // 7) % (N + 3)]
+            yield {'N': N, 'order': o[0], 'rev': o[1], 'chain': [[a, b]], 'fin': fin, 'init': init}
 
 
 def corpus():
@@ -97,6 +118,10 @@ def corpus():
         {'N': 7, 'order': 'n', 'rev': False, 'chain': [[0, 3], [5, 7]], 'fin': ['list']},  # fixed: later slice past earlier
         {'N': 7, 'order': 'n', 'rev': False, 'chain': [[0, 3]], 'fin': ['index', 5]},      # fixed: no IndexError
         {'N': 5, 'order': '-n', 'rev': True, 'chain': [[2, 5], [None, 0]], 'fin': ['list']},
+        {'N': 5, 'order': 'n', 'rev': False, 'chain': [], 'fin': ['list'], 'init': 0},     # fixed: select(limit=0) returned all
+        {'N': 6, 'order': 'n', 'rev': False, 'chain': [[1, None]], 'fin': ['list'], 'init': 3},   # seeded: the ctor window forgotten
+        {'N': 6, 'order': 'n', 'rev': False, 'chain': [[2, None], [1, None]], 'fin': ['list'], 'init': 3},
+        {'N': 6, 'order': '-n', 'rev': False, 'chain': [], 'fin': ['limit', 5], 'init': 3},
     ]
 
 
@@ -105,6 +130,7 @@ def generate(rng, tier):
     top = 3 if tier == 'quick' else 4
     for N in range(0, top + 1):
         out += list(enum_cases(N, two=True))
+        out += list(ctor_cases(N))
     nrand = 3000 if tier == 'quick' else 60000
     out += [random_case(rng) for _ in range(nrand)]
     if tier == 'thorough':
@@ -124,6 +150,7 @@ def search_cases(rng, tier):
     out = []
     for N in range(0, 5):
         out += list(enum_cases(N, two=True, with_index2=(N <= 2)))
+        out += list(ctor_cases(N))
     out += [random_case(rng, maxN=9, maxlen=4) for _ in range(20000)]
     return out
 
@@ -179,8 +206,14 @@ def run_impl(cases):
                 sel = sel.reversed()
             full = [x.n for x in sel]
             o['full'] = full
+            init = c.get('init')
+            if init is not None:
+                # the constructor form of limit: Cls.select(..., limit=k) -- the select of the first k rows
+                sel = T.select(orderBy=c['order'], limit=init) if c['order'] else T.select(limit=init)
+                if c['rev']:
+                    sel = sel.reversed()
             # specification: Python list semantics
-            spec = list(full)
+            spec = list(full) if init is None else list(full)[:init]
             for a, b in c['chain']:
                 spec = spec[a:b]
             fin = c['fin']
@@ -262,8 +295,8 @@ def coq_case(c, o):
         f = f % zlit(fin[1])
     win = 'None' if o.get('win') is None else '(Some (%s, %s))' % (zlit(o['win'][0]), optz(o['win'][1]))
     tails = '[%s]' % '; '.join('[%s]' % '; '.join(coq_tok(t) for t in tl) for tl in o.get('tails', []))
-    return ('{| c_full := [%s]; c_chain := [%s]; c_fin := %s; c_win := %s; c_tails := %s; c_out := %s; c_spec := %s |}' % (
-        '; '.join(zlit(z) for z in o['full']),
+    return ('{| c_full := [%s]; c_init := %s; c_chain := [%s]; c_fin := %s; c_win := %s; c_tails := %s; c_out := %s; c_spec := %s |}' % (
+        '; '.join(zlit(z) for z in o['full']), optz(c.get('init')),
         '; '.join('(%s, %s)' % (optz(a), optz(b)) for a, b in c['chain']),
         f, win, tails, coq_expect(o['out']), coq_expect(o['spec'])))
 
@@ -272,7 +305,8 @@ def coq_case(c, o):
 def oracle(c, o):
     if o['out'] != o['spec']:
         return {'expected': o['spec'], 'actual': o['out'],
-                'what': 'select%s%s gives %r, the Python list gives %r' % (
+                'what': 'select(%s)%s%s gives %r, the Python list gives %r' % (
+                    '' if c.get('init') is None else 'limit=%d' % c['init'],
                     ''.join('[%s:%s]' % ('' if a is None else a, '' if b is None else b) for a, b in c['chain']),
                     {'list': '', 'index': '[%s]' % (c['fin'][1] if len(c['fin']) > 1 else ''),
                      'limit': '.limit(%s)' % (c['fin'][1] if len(c['fin']) > 1 else '')}[c['fin'][0]],
@@ -289,7 +323,7 @@ def nontrivial(c, o):
 
 
 def key(c):
-    return [c['N'], c['order'], c['rev'], c['chain'], c['fin']]
+    return [c['N'], c['order'], c['rev'], c['chain'], c['fin'], c.get('init')]
 
 
 def distribution(cases, obs):
